@@ -328,3 +328,7 @@ def run(ctx: Context) -> None:
     r10b(ctx)
     r10c(ctx)
     common.fixed_flag_survives_faults(ctx, "R10d", ra)
+    if ctx.tier == "thorough":
+        from sa.rules import driver_exploration
+
+        driver_exploration.c10_predicates(ctx)
